@@ -25,6 +25,7 @@ class Func:
         self.exit = rec.get("exit")
         self._preds = None
         self._dom = None
+        self._live = None
 
     def __repr__(self):
         return "<Func %s @%s>" % (self.inst, self.loc)
@@ -42,9 +43,19 @@ class Func:
             self._preds = p
         return self._preds[b]
 
-    def events(self, kind=None, pred=None):
-        """Yield (block_id, index, event) in block order."""
+    def live_blocks(self):
+        if self._live is None:
+            self._live = self.reach([self.entry]) if self.entry in self.blocks else set(self.blocks)
+        return self._live
+
+    def events(self, kind=None, pred=None, dead=False):
+        """Yield (block_id, index, event) of blocks reachable from the entry
+        (blocks behind constant-false edges are dead code of this
+        instantiation and are skipped unless dead=True)."""
+        live = self.live_blocks()
         for bid, b in self.blocks.items():
+            if not dead and bid not in live:
+                continue
             for i, ev in enumerate(b["ev"]):
                 if kind is not None and ev["e"] != kind:
                     continue
